@@ -299,6 +299,8 @@ pub enum Alpha {
     Core,
     /// swaps / routes / single-asset deposits / withdraw / donate only
     SwapFocus,
+    /// property-specific alphabet
+    Custom(fn(&World, &PuObs) -> Vec<PuOp>),
 }
 
 #[derive(Clone)]
@@ -369,6 +371,9 @@ fn route(u: usize, hops: &[(&str, &str, &str)], amt: u128, min: Option<u128>, re
 }
 
 pub fn enabled(w: &World, pre: &PuObs, alpha: Alpha) -> Vec<PuOp> {
+    if let Alpha::Custom(f) = alpha {
+        return f(w, pre);
+    }
     let mut ops: Vec<PuOp> = vec![];
     let full = alpha == Alpha::Full;
     let swapfocus = alpha == Alpha::SwapFocus;
